@@ -162,7 +162,17 @@ pub fn run_job(reg: &crate::scen::Registry, job: &Job) -> Body {
                         }
                     }
                 },
-                || (s.run)(p),
+                || {
+                    // the thread's floating-point control state (rounding mode, flush-to-zero,
+                    // denormals-are-zero) must be after the run what it was before it
+                    let before = crate::fault::fp_control_state();
+                    let mut fp = (s.run)(p);
+                    let after = crate::fault::fp_control_state();
+                    fp.must_agree("floating_point_control_state_of_the_calling_thread_before_and_after_the_run", before, after);
+                    // ... and arithmetic behaves as IEEE 754 default says (a subnormal result is not flushed)
+                    fp.one("subnormal_arithmetic_canary", std::hint::black_box(f32::MIN_POSITIVE) * std::hint::black_box(0.5f32));
+                    fp
+                },
             );
             crate::fault::disarm();
             o.stats.callback_faults = crate::fault::take_fired();
